@@ -362,6 +362,15 @@ class Interp:
                         if isinstance(m, ast.FunctionDef):
                             self.owner[id(m)] = prefix
             self.mods[prefix] = d
+            cd = {}
+            for n in t.body:
+                if isinstance(n, ast.Assign) and len(n.targets) == 1 \
+                        and isinstance(n.targets[0], ast.Name) \
+                        and isinstance(n.value, ast.Constant) \
+                        and isinstance(n.value.value, (int, float, str)):
+                    cd[n.targets[0].id] = n.value.value
+            self.consts = getattr(self, "consts", {})
+            self.consts[prefix] = cd
         self.funcs = dict(self.mods[""])
         for prefix, d in self.mods.items():
             for k, v in d.items():
@@ -669,6 +678,10 @@ class Interp:
             c = self.class_named(e.id)
             if c is not None:
                 return AClass(c)
+            cd = self.consts.get(self.stack[-1], {})
+            if e.id in cd:
+                v = cd[e.id]
+                return AScal() if isinstance(v, float) else v
             raise Unsupported(f"name {e.id}")
         if isinstance(e, ast.Tuple):
             return tuple(self.expr(x, env) for x in e.elts)
@@ -1151,6 +1164,23 @@ class Interp:
         if name == "list" and len(args) == 1 and isinstance(
                 args[0], (tuple, list)):
             return list(args[0])
+        if name == "np.lexsort":
+            keys = args[0]
+            axis = kw.get("axis", args[1] if len(args) > 1 else -1)
+            if isinstance(keys, (tuple, list)):
+                shp = None
+                for x in keys:
+                    if not isinstance(x, AArr):
+                        raise Unsupported("np.lexsort of non-arrays")
+                    shp = x.shape if shp is None else bshape_exact(shp, x.shape)
+            elif isinstance(keys, AArr) and len(keys.shape) >= 1:
+                shp = keys.shape[1:]
+            else:
+                raise Unsupported("np.lexsort keys")
+            if not shp:
+                raise ShapeError("np.lexsort of 0-d keys")
+            _norm_axes(axis, len(shp))
+            return AArr(shp)
         if name == "np.where" and len(args) == 3:
             res = elementwise(*args)
             # np.where returns an array even for 0-d operands
